@@ -120,6 +120,33 @@ def pat_ints(p):
     raise Undecided('accepting-state pattern %s' % k)
 
 
+def total_validators(facts_dir):
+    """names of the validate_regex_* functions that are PROVEN total (defined on every byte string, i.e. they cannot panic):
+    table-driven ones whose table is well formed, hand-written ones whose (true, false) languages cover all inputs.
+    Used by the panic ledgers of C02 / C12 to discharge the sites inside the validators."""
+    syn = load_syn({'facts': facts_dir})
+    rxfile = syn[SPEC + 'regex.rs']
+    fns = {f['name']: f for f in rxfile['fns']}
+    interp = Interp(fns)
+    out = set()
+    for name, fn in fns.items():
+        if not name.startswith('validate_regex_'):
+            continue
+        try:
+            try:
+                T, info = table_validator(fn, rxfile['statics'])
+                if not info['problems']:
+                    out.add(name)
+                continue
+            except Undecided:
+                T, F = interp.function(name)
+            if T.union(F).complement().is_empty():
+                out.add(name)
+        except Undecided:
+            pass
+    return out
+
+
 def run(ctx):
     C = Check('C19', ctx['tier'], 'proof', ctx['seed'])
     C.trusted_base = ['syn 2 parser + asd-syn extractor', 'regex->NFA->DFA construction and product/complement in rules/automata.py',
